@@ -2755,7 +2755,9 @@ class MExprEmitter(MexprParserListener.MexprParserListener):
         self.mgr = mgr
 
     def exitMatchExprOptional(self, ctx: MexprParser.MatchExprOptionalContext):
-        self.result.append([antlr_get_text_with_whitespace(ctx)[1:-1]])
+        self.result.append(
+            [instantiate_escaped_symbols(antlr_get_text_with_whitespace(ctx)[1:-1])]
+        )
 
     def exitMatchExprChars(self, ctx: MexprParser.MatchExprCharsContext):
         text = antlr_get_text_with_whitespace(ctx)
@@ -4183,7 +4185,24 @@ class ISLaUnparser:
             )
 
     def _unparse_match_expr(self, match_expr: BindExpression | None) -> str:
-        return "" if match_expr is None else f'="{match_expr}"'
+        if match_expr is None:
+            return ""
+
+        def escape(text: str) -> str:
+            # Inverse of the un-escaping performed when parsing match expressions:
+            # An unescaped quote would end the string token, and a backslash would
+            # be read as the start of an escape sequence.
+            return text.replace("\\", "\\\\").replace('"', '\\"')
+
+        def elem_to_str(elem: BoundVariable | List[BoundVariable]) -> str:
+            if isinstance(elem, list):
+                return "[" + "".join(map(elem_to_str, elem)) + "]"
+            elif isinstance(elem, DummyVariable):
+                return escape(str(elem))
+            else:
+                return f"{{{elem.n_type} {elem}}}"
+
+        return '="' + "".join(map(elem_to_str, match_expr.bound_elements)) + '"'
 
     def _unparse_quantified_formula(self, formula: QuantifiedFormula) -> List[str]:
         qfr = "forall" if isinstance(formula, ForallFormula) else "exists"
